@@ -278,71 +278,10 @@ def check_array_content(ctx, m, tr, o, c, toks, views, trees, out):
                 return
 
 
-def run(ctx):
-    rng = ctx.rng
-    # ---- Scalar::to_f64 per function (model = exact integer arithmetic)
-    fc = set(C17.SCALARS)
-    for _ in range(ctx.scale(4000, 60000)):
-        r = rng.random()
-        if r < 0.5:
-            i = rng.choice([rng.randrange(0, 10 ** rng.randrange(1, 20)), rng.randrange(2 ** 52, 2 ** 64)])
-            k = rng.randrange(0, 24)
-            s = str(i)
-            s = (s[:-k] + "." + s[-k:]) if 0 < k < len(s) else ("0." + s.rjust(k, "0") if k else s)
-            s = rng.choice(["", "", "-", "+", "-+"]) + s
-        elif r < 0.8:
-            s = "".join(rng.choice("0123456789.-+e") for _ in range(rng.randrange(0, 12)))
-        else:
-            s = str(rng.choice([2 ** 53 - 1, 2 ** 53, 2 ** 53 + 1, 2 ** 63 - 1, 2 ** 63, 2 ** 64 - 1, 2 ** 64]) + rng.randrange(-2, 3))
-            s = rng.choice(["", "-"]) + s
-        fc.add(s.encode())
-    fcases = ["json.f64\t%s" % hexs(s) for s in sorted(fc)]
-    ctx.correspond("to_f64", fcases, nontrivial=lambda c, i: not i.startswith("ERR"))
-
-    # ---- documents
-    docs = C17.gen_docs(ctx, ctx.scale(500, 4000), ctx.scale(600, 5000), ctx.scale(800, 6000))
-    # >>> a_dom (wave 4): wide objects (many duplicate keys) and deep documents
-    from props import C17_iter, C16_text
-    docs = docs + C17_iter.extra_docs(ctx, ctx.scale(40, 400), ctx.scale(40, 400))
-    # <<<
-    ctx.count("documents", len(docs))
-    parsed = C17.parse_docs(ctx, docs)
-    # DOM views (implementation) of every node: what the content oracle compares the JSON with
-    dcases, dmeta = [], []
-    for di, (d, tape, toks) in enumerate(parsed):
-        for idx in C17.node_indices(toks):
-            for enc in "wu":
-                dcases.append("dom.node\t%s\t%s\t%s\t%s" % (hexs(d), tape, enc, idx))
-                dmeta.append((di, idx, enc))
-    dimpl, _ = ctx.correspond("node", dcases, nontrivial=lambda c, i: "/" in i)
-    dbase = len(dimpl) - len(dcases)
-    views = {}
-    for k, m in enumerate(dmeta):
-        views[m] = dimpl[dbase + k]
-
-    cases, meta = [], []
-    for di, (d, tape, toks) in enumerate(parsed):
-        nodes = C17.node_indices(toks)
-        for idx in nodes:
-            entries = "o" if idx == "top" else "voa"
-            for entry in entries:
-                full = (idx == "top" or entry == "v" or rng.random() < 0.3)
-                for enc in "wu":
-                    combos = [(p, du, na) for p in "01" for du in DUPS for na in NARS]
-                    if enc == "u" or not full:
-                        combos = [(p, du, na) for (p, du, na) in combos if p == "0"]
-                        if enc == "u" and entry != "v" and idx != "top":
-                            combos = rng.sample(combos, 2)
-                    for (p, du, na) in combos:
-                        cases.append("json.ser\t%s\t%s\t%s\t%s\t%s\t%s\t%s\t%s" % (hexs(d), tape, enc, idx, entry, p, du, na))
-                        meta.append((di, idx, entry, enc, p, du, na))
-    ctx.count("json cases", len(cases))
-    impl, _ = ctx.correspond("json", cases, nontrivial=lambda c, i: ":" in i or "," in i)
-    base = len(impl) - len(cases)
-    out = {}
-    for k, m in enumerate(meta):
-        out[m] = (impl[base + k], cases[k])
-
+def check_out(ctx, parsed, views, out):
+    """the oracles on the implementation's outputs (s_dom, wave 6: split out of run() unchanged, so that the ladder stream of
+    props/C16_ladder.py applies the same oracles). parsed: [(doc, tape, toks)]; views: {(di, idx, enc): dom.node output};
+    out: {(di, idx, entry, enc, pretty, dup, narrow): (json.ser output, case)}"""
     # ---- oracles on the implementation's outputs
     trees = {}
     for m, (o, c) in out.items():
@@ -475,12 +414,84 @@ def run(ctx):
                 if unwrap_op(e[1][1], f[1]) is None:
                     fail("content-op", "KeyValuePairs: operator of field %d lost" % i); break
 
+
+def run(ctx):
+    rng = ctx.rng
+    # ---- Scalar::to_f64 per function (model = exact integer arithmetic)
+    fc = set(C17.SCALARS)
+    for _ in range(ctx.scale(4000, 60000)):
+        r = rng.random()
+        if r < 0.5:
+            i = rng.choice([rng.randrange(0, 10 ** rng.randrange(1, 20)), rng.randrange(2 ** 52, 2 ** 64)])
+            k = rng.randrange(0, 24)
+            s = str(i)
+            s = (s[:-k] + "." + s[-k:]) if 0 < k < len(s) else ("0." + s.rjust(k, "0") if k else s)
+            s = rng.choice(["", "", "-", "+", "-+"]) + s
+        elif r < 0.8:
+            s = "".join(rng.choice("0123456789.-+e") for _ in range(rng.randrange(0, 12)))
+        else:
+            s = str(rng.choice([2 ** 53 - 1, 2 ** 53, 2 ** 53 + 1, 2 ** 63 - 1, 2 ** 63, 2 ** 64 - 1, 2 ** 64]) + rng.randrange(-2, 3))
+            s = rng.choice(["", "-"]) + s
+        fc.add(s.encode())
+    fcases = ["json.f64\t%s" % hexs(s) for s in sorted(fc)]
+    ctx.correspond("to_f64", fcases, nontrivial=lambda c, i: not i.startswith("ERR"))
+
+    # ---- documents
+    docs = C17.gen_docs(ctx, ctx.scale(500, 4000), ctx.scale(600, 5000), ctx.scale(800, 6000))
+    # >>> a_dom (wave 4): wide objects (many duplicate keys) and deep documents
+    from props import C17_iter, C16_text
+    docs = docs + C17_iter.extra_docs(ctx, ctx.scale(40, 400), ctx.scale(40, 400))
+    # <<<
+    ctx.count("documents", len(docs))
+    parsed = C17.parse_docs(ctx, docs)
+    # DOM views (implementation) of every node: what the content oracle compares the JSON with
+    dcases, dmeta = [], []
+    for di, (d, tape, toks) in enumerate(parsed):
+        for idx in C17.node_indices(toks):
+            for enc in "wu":
+                dcases.append("dom.node\t%s\t%s\t%s\t%s" % (hexs(d), tape, enc, idx))
+                dmeta.append((di, idx, enc))
+    dimpl, _ = ctx.correspond("node", dcases, nontrivial=lambda c, i: "/" in i)
+    dbase = len(dimpl) - len(dcases)
+    views = {}
+    for k, m in enumerate(dmeta):
+        views[m] = dimpl[dbase + k]
+
+    cases, meta = [], []
+    for di, (d, tape, toks) in enumerate(parsed):
+        nodes = C17.node_indices(toks)
+        for idx in nodes:
+            entries = "o" if idx == "top" else "voa"
+            for entry in entries:
+                full = (idx == "top" or entry == "v" or rng.random() < 0.3)
+                for enc in "wu":
+                    combos = [(p, du, na) for p in "01" for du in DUPS for na in NARS]
+                    if enc == "u" or not full:
+                        combos = [(p, du, na) for (p, du, na) in combos if p == "0"]
+                        if enc == "u" and entry != "v" and idx != "top":
+                            combos = rng.sample(combos, 2)
+                    for (p, du, na) in combos:
+                        cases.append("json.ser\t%s\t%s\t%s\t%s\t%s\t%s\t%s\t%s" % (hexs(d), tape, enc, idx, entry, p, du, na))
+                        meta.append((di, idx, entry, enc, p, du, na))
+    ctx.count("json cases", len(cases))
+    impl, _ = ctx.correspond("json", cases, nontrivial=lambda c, i: ":" in i or "," in i)
+    base = len(impl) - len(cases)
+    out = {}
+    for k, m in enumerate(meta):
+        out[m] = (impl[base + k], cases[k])
+
+    check_out(ctx, parsed, views, out)
+
     # >>> a_dom (wave 4): the exact text of the three entry points vs the printer model, text-level oracles
     C16_text.run_text(ctx, parsed, out)
     # <<<
     # >>> w_json (wave 5): the document walk (stream atoms) and the declarative window reading (stream aspec)
     from props import C16_doc
     C16_doc.run_doc(ctx, parsed)
+    # <<<
+    # >>> s_dom (wave 6): size / boundary ladders (one dimension at a time; same oracles + counts by construction)
+    from props import C16_ladder
+    C16_ladder.run_ladder(ctx)
     # <<<
     # ---- the text itself: valid UTF-8, valid JSON for an independent parser
     tcases = []
@@ -534,3 +545,10 @@ RULE = RULE + ("; wave 5 (props/C16_doc.py): documents with mixed containers in 
 # <<<
 # a_dom (wave 4): the additional claim is part of the manifest text
 CLAIM["text"] = CLAIM["text"] + ". Wave 4: " + CLAIM.pop("wave4") + ". Wave 5: " + CLAIM.pop("wave5")
+
+# >>> s_dom (wave 6)
+RULE = RULE + ("; wave 6 (props/C16_ladder.py): the size ladders of props/C17_ladder.py (fields / duplicates / groups to 4097, key / header / string "
+               "length to 65536, escapes per kind to 65536, arrays to 65536, triples x window phase to 1025, nesting to 1025, numbers of every "
+               "magnitude / digit count, output from 0.15 x to 9800 x the pre-allocation) through json(): streams ladder_ser / ladder_print / "
+               "ladder_atoms (with the model), ladder_*_big / ladder_print_deeper (oracles only: check_out, run_text, counts by construction)")
+# <<<
